@@ -44,7 +44,7 @@ fn main() {
             }
             Ok(Some((sig, detail))) => {
                 println!("replay: FAIL sig={} detail={}", sig, detail);
-                rep.failures.push(nv::report::Failure { sig, detail, engine, case: j["case"].clone() });
+                rep.failures.push(nv::report::Failure { sig, detail, engine, case: j["case"].clone(), env: nv::report::nun_env() });
                 1
             }
             Err(e) => {
@@ -52,10 +52,10 @@ fn main() {
                 2
             }
         }
-    } else if arg(&args, "--probe-known").is_some() {
-        // directed probes: replay each listed known finding of this property
+    } else if let Some(which) = arg(&args, "--probe-known") {
+        // directed probe: replay the stored case of one listed known finding (its NUN_* env is set by the driver)
         let mut reproduced = vec![];
-        for k in ctx.known.iter().filter(|k| k.property == prop && k.status == "known") {
+        for k in ctx.known.iter().filter(|k| k.property == prop && k.status == "known" && k.id == which) {
             match nv::props::replay(&ctx, &prop, &k.engine, &k.probe) {
                 Ok(Some((sig, _))) if sig == k.sig => reproduced.push(k.id.clone()),
                 Ok(Some((sig, detail))) => rep.notes.push(format!("probe {} failed with a different signature: {} ({})", k.id, sig, detail)),
